@@ -1,4 +1,4 @@
-SPECIFICATION GenSpec
+SPECIFICATION WalkSpec
 CONSTANTS
   Execs = {"e1", "e2", "e3"}
   Arity <- MCArity
@@ -8,5 +8,5 @@ CONSTANTS
   Cancellable = {"e2"}
   UniqueIds = TRUE
   Plans <- PlansAll
-INVARIANT Emit
+INVARIANT EmitWalk
 CHECK_DEADLOCK FALSE
